@@ -826,14 +826,14 @@ def tasks_ordering(thorough):
     for n in range(0, maxN + 1):
         for variant in VARIANTS:
             for plant in (False, True):
-                out.append(_task('op', 'ordering', 'op:{}:' + variant + (':plant' if plant else ''), n >= 2,
+                out.append(_task('op', 'ordering', 'op:{}:' + variant, n >= 2,
                                  n=n, edges=[], variant=variant, plant=plant, complete=True))
     maxV = 5 if thorough else 4
     for n in range(0, maxV + 1):
         for _, edges in en.simple_graphs(n):
             for variant in VARIANTS:
                 for plant in (False, True):
-                    out.append(_task('gop', 'ordering', 'gop:{}:' + variant + (':plant' if plant else ''), len(edges) > 0,
+                    out.append(_task('gop', 'ordering', 'gop:{}:' + variant, len(edges) > 0,
                                      n=n, edges=edges, variant=variant, plant=plant, complete=False))
     return out
 
